@@ -100,15 +100,20 @@ OPS = {
 }
 
 
-def step_case(prefix, op, shape, k=0, multi=False, tf=True, fn="step", extra_unwind=0, timeout=None):
+def step_case(prefix, op, shape, k=0, multi=False, tf=True, fn="step", extra_unwind=0, timeout=None, fail_at=None):
     const, symargs, _ = OPS[op]
     name = "%s_%s%s_%s%s" % (prefix, op, ("_k%d%s" % (k, "m" if multi else "")) if k else "", shape.tag(),
                              "" if tf else "_sf")
-    body = "%s(%s, %s, %d, %s, %s)" % (fn, shape.args(), const, k, "true" if multi else "false", "true" if tf else "false")
+    fa = "" if fail_at is None else "%d, " % fail_at
+    if fail_at is not None:
+        name += "_f%s" % ("S" if fail_at == 0 else str(fail_at))
+    body = "%s(%s, %s, %d, %s, %s%s)" % (fn, shape.args(), const, k, "true" if multi else "false", fa, "true" if tf else "false")
     sample = {"op": op, "state": shape.describe(), "drop_order": "target first" if tf else "sharers first"}
     if k:
         sample["k"] = k
         sample["multi_byte_piece"] = multi
     sym = shape.symbolic() + symargs
+    if fail_at is not None:
+        sample["allocator"] = "solver decides per request" if fail_at == 0 else "request #%d of the operation is refused" % fail_at
     return Case(name, body, shape.unwind(extra_unwind + k), sample, sym, role="%s:%s" % (op, shape.role()),
                 timeout=timeout)
